@@ -44,12 +44,16 @@ def rand_name(rnd, kind):
     if kind == 'cell-prefix':            # identifier-shaped but starting like a cell reference: ab12cd, x1_total
         a = ''.join(rnd.choice(L) for _ in range(rnd.randint(1, 3))) + str(rnd.randint(1, 999))
         return a + rnd.choice(['_total', 'cd', 'x', '_', 'Z9z', '_1'])
+    if kind == 'host-language-word':     # spellings that Python's own conversions (float(), int(), eval) or keywords give a meaning to
+        w = rnd.choice(['inf', 'nan', 'infinity', 'Inf', 'NaN', 'INFINITY', 'Infinity', 'None', 'True', 'False', 'true', 'e', 'E', 'j', 'J', 'lambda', 'is', 'not',
+                        'and', 'or', 'in', 'if', 'else', 'self', 'eval', 'int', 'str', 'print', '__class__', '__import__', 'null', 'Null', 'pi', 'Pi'])
+        return w if rnd.random() < 0.8 else w + rnd.choice(['_', 'x', 'X_'])
     if kind == 'underscore-digits':      # _x1
         return '_' + ''.join(rnd.choice(L) for _ in range(rnd.randint(1, 3))) + str(rnd.randint(0, 99))
     raise ValueError(kind)
 
 
-NAME_KINDS = ['letters', 'letters', 'underscore-first', 'digits-inside', 'cell-prefix', 'underscore-digits']
+NAME_KINDS = ['letters', 'letters', 'underscore-first', 'digits-inside', 'cell-prefix', 'underscore-digits', 'host-language-word']
 
 
 class Falsy(object):
@@ -153,7 +157,7 @@ class Check(FormulaCheck):
             self.e.p.set_variable(name, v)
             r = self.parse(name)
             ok = r['error'] is None and (r['result'] is v or (type(r['result']) is type(v) and canon(r['result']) == canon(v)))
-            tag = ':name-with-cell-shaped-prefix' if kind == 'cell-prefix' else (':underscore-then-digits' if kind == 'underscore-digits' else '')
+            tag = ':name-with-cell-shaped-prefix' if kind == 'cell-prefix' else (':underscore-then-digits' if kind == 'underscore-digits' else (':host-language-word' if kind == 'host-language-word' else ''))
             self.expect('C09/variable-does-not-evaluate-to-its-value' + tag, ok, name=name, value=v, record=r)
             if name not in ('TRUE', 'FALSE', 'NULL'):
                 ro = self.hx_parser().parse(name)
@@ -331,6 +335,8 @@ class Check(FormulaCheck):
                 tag = ':name-with-cell-shaped-prefix'
             elif what == 'variable' and re.match(r'_[A-Za-z_]*[0-9]', nm):
                 tag = ':underscore-then-digits'
+            elif what == 'variable' and nm.lower() in ('inf', 'nan', 'infinity', 'none', 'true', 'false', 'e', 'j'):
+                tag = ':host-language-word'
             self.expect('C09/unknown-%s-is-not-#NAME?%s' % (what, tag), r == {'result': None, 'error': '#NAME?'}, formula=f, unknown=unk, record=r, context=ctx)
             rec.nt(f)
             rec.cov('unknown_contexts', (what, ctx))
